@@ -118,3 +118,130 @@ def extras(prop, tier, seed):
         return []
     from pyvc.report import run_bounded
     return [run_bounded("roundtrip", tier, seed)]
+
+
+# ---------------------------------------------------------------------------
+# the same lemma for the human-readable syntax: printer spellings vs the lexer's ordered rule list
+# ---------------------------------------------------------------------------
+HR_PRINTER = "pysmt.printers.HRPrinter"
+HR_LEXER = "pysmt.parsing.HRLexer"
+# helper of the lexer -> constructors it may choose from (by the type of the left operand); read from the helper's body
+MGR_CALL = "self.mgr."
+
+
+def hr_rules(repo):
+    """ordered [(regex source, adapter class or None, [constructor names the adapter may call])] of HRLexer.__init__,
+    and the identifier map {word: (adapter, [constructors])}"""
+    fi = repo.method(HR_LEXER, "__init__")
+    mi, ci = repo.find_class(HR_LEXER)
+
+    def ctors_of(expr):
+        """constructor names reachable from an adapter argument: self.mgr.X, or self.Helper -> every self.mgr.Y in its body"""
+        out = []
+        for n in ast.walk(expr):
+            if isinstance(n, ast.Attribute):
+                src = ast.unparse(n)
+                if src.startswith(MGR_CALL) and src.count(".") == 2:
+                    out.append(n.attr)
+                elif isinstance(n.value, ast.Name) and n.value.id == "self" and n.attr in ci["methods"]:
+                    for m in ast.walk(ci["methods"][n.attr].node):
+                        if isinstance(m, ast.Attribute) and ast.unparse(m).startswith(MGR_CALL) and ast.unparse(m).count(".") == 2:
+                            out.append(m.attr)
+        return out
+    rules, idmap = [], {}
+    for n in ast.walk(fi.node):
+        if isinstance(n, ast.Assign) and len(n.targets) == 1:
+            t = ast.unparse(n.targets[0])
+            if t == "hr_rules" and isinstance(n.value, ast.List):
+                for e in n.value.elts:
+                    if isinstance(e, ast.Call) and ast.unparse(e.func) == "Rule" and e.args and isinstance(e.args[0], ast.Constant):
+                        ad = e.args[1] if len(e.args) > 1 else None
+                        cls = ast.unparse(ad.func) if isinstance(ad, ast.Call) else (ast.unparse(ad) if ad is not None else None)
+                        rules.append((e.args[0].value, cls, ctors_of(ad) if ad is not None else []))
+            if t == "self._identifier_map" and isinstance(n.value, ast.Dict):
+                for k, v in zip(n.value.keys, n.value.values):
+                    if isinstance(k, ast.Constant):
+                        idmap[k.value] = (ast.unparse(v.func) if isinstance(v, ast.Call) else ast.unparse(v), ctors_of(v))
+    return rules, idmap
+
+
+def hr_spellings(repo):
+    """operator -> infix spelling the HR printer passes to walk_nary (methods `def walk_X(...): return self.walk_nary(formula, " op ")`)"""
+    mi, ci = repo.find_class(HR_PRINTER)
+    out = {}
+    for name, fi in ci["methods"].items():
+        if name not in OPS_BY_WALK:
+            continue
+        for n in ast.walk(fi.node):
+            if isinstance(n, ast.Call) and isinstance(n.func, ast.Attribute) and n.func.attr == "walk_nary" and len(n.args) == 2 \
+                    and isinstance(n.args[1], ast.Constant) and isinstance(n.args[1].value, str):
+                out[OPS_BY_WALK[name]] = n.args[1].value.strip()
+    return out
+
+
+class HrOperatorRoundTripVariant(Variant):
+    """For every operator the human-readable printer writes as an infix application `(l op r)`: scanning the text `op`
+    with the lexer's rules IN THEIR ORDER (first rule that matches at the position wins - evaluated with Python's `re` on
+    the real patterns) gives one token covering exactly `op`, and that token's adapter can call the constructor that builds
+    the operator (for the overloaded & | + - * the helper chooses by the operand type between the Boolean / arithmetic and
+    the bit-vector constructor: both must be among its choices)."""
+    prop_ids = ("C09",)
+    qualname = HR_LEXER + ".__init__"
+    name = "static:hr-operator-round-trip"
+
+    def __init__(self, world):
+        self.world = world
+
+    def setup(self, ex):
+        repo = self.world.repo
+        self.rules, self.idmap = hr_rules(repo)
+        self.spell = hr_spellings(repo)
+        return Builtin("static-scan", lambda exx, a, kw: None), [], {}
+
+    def token_for(self, text):
+        """(index of the rule, adapter, constructors) that the lexer's scan produces at the start of `text`, and the length
+        matched"""
+        import re
+        for i, (rx, cls, ctors) in enumerate(self.rules):
+            try:
+                m = re.match(rx, text)
+            except re.error:
+                return None
+            if m:
+                if "A-Za-z_" in rx and m.group(0) in self.idmap:
+                    cls, ctors = self.idmap[m.group(0)]
+                return i, cls, ctors, len(m.group(0))
+        return None
+
+    def check(self, ex, outcome):
+        goals = [("hr-tables-found", z3.BoolVal(len(self.rules) > 40 and len(self.spell) > 20))]
+        self.bad = {}
+        inv = {}
+        for ctor, built in BUILDS.items():
+            for b in (built if isinstance(built, tuple) else (built,)):
+                inv.setdefault(b, set()).add(ctor)
+        inv.setdefault(S.IFF, set()).add("Iff")
+        inv.setdefault(S.EQUALS, set()).add("Equals")
+        inv.setdefault(S.MINUS, set()).add("Minus")
+        inv.setdefault(S.DIV, set()).add("Div")
+        for Kop, op in sorted(self.spell.items()):
+            tok = self.token_for(op + " x")
+            want = inv.get(Kop, set())
+            ok = tok is not None and tok[3] == len(op) and tok[1] in ("InfixOpAdapter", "InfixOrUnaryOpAdapter") and bool(want & set(tok[2]))
+            if not ok:
+                self.bad[S.OPNAMES[Kop]] = {"printed": op, "lexer": tok}
+            goals.append(("C09:hr:%s-printed-as-%s-is-read-as-%s" % (S.OPNAMES[Kop], op.replace(" ", "").replace("/", "(slash)"), S.OPNAMES[Kop]), z3.BoolVal(bool(ok))))
+        return goals
+
+    def witness(self, model, ex):
+        return getattr(self, "bad", {})
+
+
+_base_variants9 = variants
+
+
+def variants(world, tier="quick", only=None):
+    out = _base_variants9(world, tier, None) + [HrOperatorRoundTripVariant(world)]
+    if only:
+        out = [v for v in out if any(o in v.name for o in only)]
+    return out
